@@ -12,7 +12,7 @@ class C12(Property):
     title = "A job that fits is eventually scheduled (no lost wake-ups)"
     lean_targets = ["SFV.Props.C12", "SFV.Model.SchedProto"]
     props_files = ["SFV/Props/C12.lean"]
-    drivers = ["Drivers/C10.lean"]
+    drivers = ["Drivers/C10.lean", "Drivers/C10Hyp.lean"]
     translators = [schedguards.generate]
     rule = SCHED_RULE + (" Jobs are released in arbitrary orders; at every quiescent point of the controlled loop (no ready handle, no new "
                          "scheduler event for three consecutive yields) every pending schedule() request is checked against the free "
